@@ -160,6 +160,18 @@ class TdfType(Generic[X]):
         "Return the size in bytes of n items of the type"
         return n * self.btype.itemsize
 
+    def free_channel(self, used) -> int:
+        """The channel an item gets when none is given: one above the highest
+        channel in use while that still fits this (integer) type, else the
+        lowest channel that is free."""
+        channel = max(used) + 1 if len(used) else 0
+        top = int(np.iinfo(self.btype).max)
+        if channel > top:
+            channel = next((c for c in range(top + 1) if c not in used), None)
+            if channel is None:
+                raise ValueError("No free channel left")
+        return channel
+
 
 Volume = TdfType(np.dtype("3<f4"))
 
